@@ -110,7 +110,9 @@ func (s *Server) HandleIDPInitiated(w http.ResponseWriter, r *http.Request) {
 		}
 	}
 
-	s.idpConfigMu.RLock()
-	defer s.idpConfigMu.RUnlock()
+	// Do not hold idpConfigMu here: ServeIDPInitiated looks the service provider up
+	// through GetServiceProvider, which takes the read lock itself. Holding it across
+	// the call re-enters the read lock, which deadlocks against a concurrent
+	// HandlePutService/HandleDeleteService waiting for the write lock.
 	s.IDP.ServeIDPInitiated(w, r, shortcut.ServiceProviderID, relayState)
 }
